@@ -14,7 +14,7 @@ META = dict(
                "compute_jensen_shannon_similarity", "ReceptorEstimator.compute_hull / compute_gamut (wiring of the cloud and of the reference)"],
     bounds=dict(quick="mean width: 3-4 symbolic points in 2-3 dimensions, 2 arbitrary symbolic directions (the generator is a stub), 1-D clouds of 3 points; gamut metric: "
                       "3 points x 3 receptors; divergence: vectors of length 2-3; estimator: 2 receptors x 2 sources x 3 domain points",
-                thorough="4 directions, 5 points"),
+                thorough="same (3 and 4 directions were probed: the monotonicity clause is unknown to z3 already on constant inputs)"),
     stubs=["numpy default_rng(seed).standard_normal -> arbitrary non-zero direction vectors (seed recorded)", "scipy.stats.entropy -> uninterpreted function of its two vectors",
            "sklearn normalize -> rows / sum|x|", "metrics.compute_gamut -> recorder (estimator wiring case only)"],
     assumptions=["real arithmetic"],
@@ -226,7 +226,7 @@ def cases(tier, seed):
     for which in ("translation", "monotone"):
         for vectorized in (False, True):
             add(f"mean width 3 points 2-D 2 directions {which} vectorized={vectorized}", "width_case", npts=3, d=2, ndir=2, vectorized=vectorized, which=which)
-        add(f"mean width 4 points 3-D 2 directions {which}", "width_case", npts=4, d=3, ndir=(4 if big else 2), vectorized=False, which=which)
+        add(f"mean width 4 points 3-D 2 directions {which}", "width_case", npts=4, d=3, ndir=2, vectorized=False, which=which)
     for scale in (2.0, 0.125, 1000.0):
         add(f"mean width 3 points 2-D 2 directions scale x{scale}", "width_case", npts=3, d=2, ndir=2, vectorized=False, which="scale", scale=scale)
         add(f"mean width 4 points 3-D 2 directions scale x{scale} vectorized", "width_case", npts=4, d=3, ndir=2, vectorized=True, which="scale", scale=scale)
